@@ -224,7 +224,11 @@ def mkbool(t):
 def _cmp(a, b, op):
     """comparison of a proxy with anything"""
     if isinstance(b, _np.ndarray):
-        return NotImplemented
+        out = _np.empty(b.shape, dtype=object)
+        fo, fi = out.reshape(-1), b.reshape(-1)
+        for i in range(fi.size):
+            fo[i] = _cmp(a, fi[i], op)
+        return out
     if _isnan(b):
         return op == '!='
     if _isinf(b):
@@ -326,6 +330,24 @@ class _SymNum:
     def conjugate(self):
         return self
 
+    def item(self):
+        return self
+
+
+_OPS = {'+': lambda a, b: a + b, '-': lambda a, b: a - b, '*': lambda a, b: a * b, '/': lambda a, b: a / b}
+
+
+def _elementwise(sym, arr, op, swapped):
+    """proxy (op) numpy array -> object array, element by element (numpy would do the same for an object operand)"""
+    f = _OPS[op]
+    out = _np.empty(arr.shape, dtype=object)
+    flat_o = out.reshape(-1)
+    flat_i = arr.reshape(-1)
+    for i in range(flat_i.size):
+        e = flat_i[i]
+        flat_o[i] = f(e, sym) if swapped else f(sym, e)
+    return out
+
 
 def _special(a, b, op, swapped):
     """arithmetic of proxy a with a nan/inf float b (numpy semantics); op in + - * /"""
@@ -370,7 +392,7 @@ class SymReal(_SymNum):
 
     def _bin(self, o, op, swapped=False):
         if isinstance(o, _np.ndarray):
-            return NotImplemented
+            return _elementwise(self, o, op, swapped)
         if isinstance(o, (float, _np.floating)) and (o != o or o in (math.inf, -math.inf)):
             return _special(self, o, op, swapped)
         if not (is_sym(o) or is_num(o)):
@@ -479,7 +501,7 @@ class SymInt(_SymNum):
 
     def _bin(self, o, op, swapped=False):
         if isinstance(o, _np.ndarray):
-            return NotImplemented
+            return _elementwise(self, o, op, swapped)
         if isinstance(o, (SymInt, SymBool, int, _np.integer, bool, _np.bool_)):
             x, y = self.t, int_term(o)
             if swapped:
@@ -631,6 +653,15 @@ def usqrt(x):
     return SymReal(t, npf)
 
 
+def usqrt_total(x):
+    """sqrt of a value known to be non-negative by construction (sum of squares): no domain split"""
+    if is_num(x):
+        return _np.sqrt(x)
+    t = F_SQRT(real_term(x))
+    _CUR.add_axiom(z3.And(t >= 0, t * t == real_term(x)))
+    return SymReal(t, SymReal._npf_of(x))
+
+
 def _pow(a, b):
     if is_num(b) and float(b) == int(b) and abs(int(b)) <= 6:
         n = int(b)
@@ -743,6 +774,8 @@ class PathCtx:
         self.max_decisions = opts.get('max_decisions', 20000)
         self.notes = []
         self.sym_decisions = 0
+        self.t_start = time.perf_counter()
+        self.max_path_seconds = opts.get('max_path_seconds')
 
     # -- inputs -------------------------------------------------------------------------------
     def real(self, name, lo=None, hi=None, npf=False, lo_strict=False, hi_strict=False):
@@ -772,6 +805,8 @@ class PathCtx:
 
     # -- solver plumbing ----------------------------------------------------------------------
     def _check(self, *assumptions):
+        if self.max_path_seconds and time.perf_counter() - self.t_start > self.max_path_seconds:
+            raise PathLimit('path time limit')
         t0 = time.perf_counter()
         r = self.solver.check(*assumptions)
         self.solver_s += time.perf_counter() - t0
@@ -905,7 +940,12 @@ class PathCtx:
                 self.discharged += 1
                 self.concrete_ok += 1
                 return True
-            self.violations.append(Violation(label, self.get_model(), info))
+            mdl = self.get_model()
+            if not mdl and self.inputs:
+                # the path condition is not known to be satisfiable (solver unknown): cannot be turned into a witness
+                self.inconclusive.append(label)
+                return False
+            self.violations.append(Violation(label, mdl, info))
             return False
         t = z3.simplify(bool_term(c))
         if z3.is_true(t):
@@ -921,6 +961,17 @@ class PathCtx:
             return True
         if r == z3.sat:
             m = self.solver.model()
+            # prefer a counterexample on a float-exact lattice (k/64): it survives the rounding of the concrete replay
+            if self.opts.get('lattice_models', True):
+                lat = [z3.IsInt(c * 64) for c in self.inputs.values() if z3.is_real(c)]
+                if lat:
+                    self.solver.set('timeout', int(self.opts.get('lattice_timeout_ms', 3000)))
+                    try:
+                        r3 = self._check(z3.Not(t), *lat)
+                        if r3 == z3.sat:
+                            m = self.solver.model()
+                    finally:
+                        self.solver.set('timeout', int(self.opts.get('feas_timeout_ms', 20000)))
             self.violations.append(Violation(label, model_to_dict(m, self.inputs), info))
             return False
         r2 = self._fallback_prove(t, timeout_ms)
